@@ -126,7 +126,9 @@ def routes(rec, rng):
         kw2 = dict(kw)
         for key, spec in (("color", rec["fg"]), ("bgcolor", rec["bg"])):
             if spec and spec[0] == "rgb":
-                kw2[key] = rng.choice(["rgb(%d, %d, %d)", "rgb( %d,%d,%d )", "RGB(%d ,%d ,%d)"]) % tuple(spec[1:])
+                # (the pattern's \\s and int() take every Unicode blank, not only the ASCII ones)
+                kw2[key] = rng.choice(["rgb(%d, %d, %d)", "rgb( %d,%d,%d )", "RGB(%d ,%d ,%d)", "rgb(%d,\u3000%d,%d)",
+                                       "rgb(%d,%d\xa0,%d)", "rgb(%d,\t%d,\x85%d)", "rgb(\u2003%d,%d,%d\u2028)"]) % tuple(spec[1:])
         out.append(("kwargs_rgb_with_blanks", Style(**kw2)))
     if rec["link"] is None:
         # "no link" spelled as an empty string by the caller (a template value, an unset config entry)
